@@ -5,7 +5,8 @@ set -e
 cd "$(dirname "$0")"
 export GOFLAGS=-mod=mod GOPROXY=off GOSUMDB=off GOTOOLCHAIN=local
 cp /repo/go.sum go.sum
-mkdir -p evidence
+mkdir -p evidence bin
+go build -o bin/vgen ./tools/vgen
 S=$(mktemp -d)
 trap 'rm -rf "$S"' EXIT
 python3 tools/mkoverlay.py "$PWD" /repo "$S" none > "$S/overlay.json"
